@@ -353,6 +353,22 @@ struct Run{
     double set_before[7]={old->Get_h(),old->Get_h_min(),old->Get_h_max(),old->Get_abs_error(),old->Get_rel_error(),old->Get_NumSteps(),(double)old->Get_nx()};
     std::vector<double> grid_before=old->Get_xrange();
     int rc;
+    if(assign && o["self"].as_bool(false)){
+      // a solver move-assigned onto itself stays exactly as it is
+      unsigned stride=nsun*nsun*nrhos+nsc; std::vector<double> before(live->rho_ptr(0,0),live->rho_ptr(0,0)+stride*nx);
+      rc=lib_call([&]{ SimSolver& me=*live; *live=std::move(me); });
+      c.ctr->add("probe_self_move_assignment");
+      if(rc!=CALL_OK){ c.violation("C10","move:threw","self","moving the solver onto itself threw \""+g_what+"\""); return; }
+      if(live->Get_t()!=t_before||live->Get_t_initial()!=t_ini){ c.violation("C10","clock:move","self","the clock changed when the solver was moved onto itself"); return; }
+      double set_after[7]={live->Get_h(),live->Get_h_min(),live->Get_h_max(),live->Get_abs_error(),live->Get_rel_error(),live->Get_NumSteps(),(double)live->Get_nx()};
+      for(int q=0;q<7;q++) if(set_after[q]!=set_before[q]){ c.violation("C10","move:setting-lost","self","a setting changed when the solver was moved onto itself"); return; }
+      if(live->Get_xrange()!=grid_before){ c.violation("C10","move:setting-lost","self-grid","the node grid changed when the solver was moved onto itself"); return; }
+      long bid; int ub; size_t off;
+      if(alloc_classify(live->rho_ptr(0,0),(size_t)stride*nx*sizeof(double),&bid,&ub,&off)!=RANGE_LIB_BLOCK){ c.violation(prop=="C15"?"C15":"C10","views:storage","self","after moving the solver onto itself its state does not lie in a live block"); return; }
+      if(memcmp(&before[0],live->rho_ptr(0,0),before.size()*sizeof(double))!=0){ c.violation("C10","state:lost-in-move","self","the stored state changed when the solver was moved onto itself"); return; }
+      check_views("move",false);
+      shp("move_self"); return;
+    }
     if(!assign) rc=lib_call([&]{ nw=new SimSolver(std::move(*old)); });
     else{
       bool fresh=o["fresh"].as_bool(true);
@@ -743,7 +759,7 @@ struct SolverEngine: Engine{
         else if(k==1) ops.push(gen_expect(r,true));
         else if(k==2){ Json o=Json::object(); o["op"]="reini"; o["cfg"]=gen_cfg(r,true); o["same"]=r.chance(0.4); ops.push(o); }
         else if(k==3){ Json o=Json::object(); o["op"]="second_solver"; o["same_dim"]=r.chance(0.35); o["mirror"]=r.chance(0.6); o["d"]=(int)r.below(5); o["avg"]=r.chance(0.3); o["vs"]=(long long)r.below(100000); ops.push(o); }
-        else{ Json o=Json::object(); o["op"]=r.chance(0.5)?"move_ctor":"move_assign"; o["fresh"]=r.chance(0.5); o["evolve_target"]=r.chance(0.3); o["reini_old"]=r.chance(0.3); o["reini_same"]=r.chance(0.5); o["n"]=(int)r.below(3); o["d"]=(int)r.below(5); o["s"]=(int)r.below(2); ops.push(o); }
+        else{ Json o=Json::object(); o["op"]=r.chance(0.5)?"move_ctor":"move_assign"; o["self"]=r.chance(0.12); o["fresh"]=r.chance(0.5); o["evolve_target"]=r.chance(0.3); o["reini_old"]=r.chance(0.3); o["reini_same"]=r.chance(0.5); o["n"]=(int)r.below(3); o["d"]=(int)r.below(5); o["s"]=(int)r.below(2); ops.push(o); }
       }
     }else{ // C10 and C15: sequences
       int n=r.range(2,8);
@@ -758,7 +774,7 @@ struct SolverEngine: Engine{
         if(k==0){ double dt=dtgen(); if(i==0||r.chance(0.35)) ops.push(gen_stepper(r,dt,L)); evolve(dt); }
         else if(k==1){ Json o=Json::object(); o["op"]="switch"; o["which"]=(int)r.below(5); o["on"]=r.chance(0.5); ops.push(o); }
         else if(k==2){ ops.push(gen_stepper(r,1.0,L)); }
-        else if(k==3||k==4){ Json o=Json::object(); o["op"]=k==3?"move_ctor":"move_assign"; o["fresh"]=r.chance(0.5); o["evolve_target"]=r.chance(0.35); o["reini_old"]=r.chance(0.4); o["reini_same"]=r.chance(0.5); o["n"]=(int)r.below(3); o["d"]=(int)r.below(5); o["s"]=(int)r.below(2); ops.push(o); }
+        else if(k==3||k==4){ Json o=Json::object(); o["op"]=k==3?"move_ctor":"move_assign"; o["self"]=r.chance(0.12); o["fresh"]=r.chance(0.5); o["evolve_target"]=r.chance(0.35); o["reini_old"]=r.chance(0.4); o["reini_same"]=r.chance(0.5); o["n"]=(int)r.below(3); o["d"]=(int)r.below(5); o["s"]=(int)r.below(2); ops.push(o); }
         else if(k==5){ Json o=Json::object(); o["op"]="reini"; o["cfg"]=gen_cfg(r,false); o["same"]=r.chance(0.4); ops.push(o); }
         else if(k==6) ops.push(gen_expect(r,prop=="C15"));
         else if(k==7){ Json o=Json::object(); o["op"]="second_solver"; o["same_dim"]=r.chance(0.35); o["mirror"]=r.chance(0.6); o["d"]=(int)r.below(5); o["avg"]=r.chance(0.3); o["vs"]=(long long)r.below(100000); ops.push(o); }
